@@ -337,7 +337,8 @@ class Facts:
             d = json.load(f)
         self.raw = d
         # functions the reference tree does not have are inlined at their call sites (analysis/inline.py)
-        from . import inline
+        from . import inline, canon
+        self.canon_report = canon.apply(d) if os.environ.get("REPE_NO_CANON") != "1" else {"fields": [], "args": [], "fns": []}
         self.inline_report = inline.apply(d) if os.environ.get("REPE_NO_INLINE") != "1" else {"new_functions": [], "inlined": [], "skipped": []}
         self.features = d["features"]
         self.adts = d["adts"]
